@@ -434,6 +434,23 @@ func registerKeygenModels(P *Program) {
 		ex.stubs["common.FastMod with a symbolic modulus is plain reduction (its fast path is the subject of C19/FastMod)"] = true
 		return nil, true
 	}
+	// the four Gennaro-style sub-verifiers of the quasi-safe-prime-product proof, for the obligation about how
+	// quasiSafePrimeProductVerifyProof combines them (param stub_gennaro): each returns an arbitrary verdict,
+	// a boolean variable named after the function, the modulus and the proof index it was called with
+	for _, fnName := range []string{"squareFreeVerifyProof", "primePowerProductVerifyProof", "disjointPrimeProductVerifyProof", "almostSafePrimeProductVerifyProof"} {
+		fnName := fnName
+		m[TargetModule+"/keyproof."+fnName] = func(ex *Exec, fn *ssa.Function, args []Value) (Value, bool) {
+			if ex.Ob.Param("stub_gennaro", 0) == 0 {
+				return nil, false
+			}
+			n, _ := bigOf(args[0])
+			idx, _ := bigOf(args[2])
+			name := fmt.Sprintf("verdict_%s_N%s_idx%s", fnName, n.I.String(), idx.I.String())
+			ex.noteVar(name)
+			ex.stubs["keyproof sub-verifiers return arbitrary verdicts (obligation about their combination only)"] = true
+			return smt.Var(name, smt.Bool, nil, nil), true
+		}
+	}
 	// go-exptable: a table remembers base and modulus; Exp is modular exponentiation
 	m["(*github.com/bwesterb/go-exptable.Table).Compute"] = func(ex *Exec, fn *ssa.Function, args []Value) (Value, bool) {
 		o := args[0].(Pointer).C.V.(*Opaque)
